@@ -52,6 +52,11 @@ def check(model: Model, rep: Report, tier: str):
         share_rule(rep, model, lambda m, r: h5(m, r, cg), "C12.X6", "no index computation is memoised under a key that lets two kernels / strategies with different "
                    "offsets share an entry (= C03.H5, memos inside acquisition_indexing only)",
                    keep=lambda o: "acquisition_indexing" in o["loc"])
+    from .c19 import _i3
+    with rep.isolated():
+        share_rule(rep, model, _i3, "C12.X7", "a kernel decides whether a qubit is involved by `element in involved_qubit_ids`, i.e. by equality of qubit identifiers: that equality is "
+                   "equality of the names, whatever objects carry them (= C19.I3) -- an identity test answers 'not involved' for an equal identifier created elsewhere and every "
+                   "index getter returns empty rows")
 
 
 # ---------------------------------------------------------------------------------------------
